@@ -189,7 +189,12 @@ def g_cas(cspec, ids, sofas):
 
 def schema_and_names(cassis, sc):
     schema = scen.schema_of(cassis, sc["ts"])
-    return schema, scen.used_type_names(schema, sc["cas"])
+    names = scen.used_type_names(schema, sc["cas"])
+    # uima.cas.NULL is the type the reader gives <cas:NULL>: part of every TypeSystem, needed by the reader's premises (C01)
+    for n in (T + "NULL", T + "TOP"):
+        if n in schema and n not in names:
+            names.append(n)
+    return schema, sorted(names)
 
 
 # ------------------------------------------------------------------------------------------------ independent reading
